@@ -419,7 +419,13 @@ func byteSumOps(fn *ssa.Function) []string {
 	collect(fn)
 	var blocks []*ssa.BasicBlock
 	for _, f := range fns {
-		blocks = append(blocks, f.Blocks...)
+		// (blocks behind a branch the value ranges rule out – an asserted invariant – are not part of the computation)
+		dead := deadBlocksByIntervals(f, intervals(f))
+		for _, b := range f.Blocks {
+			if !dead[b] {
+				blocks = append(blocks, b)
+			}
+		}
 	}
 	for _, b := range blocks {
 		for _, in := range b.Instrs {
@@ -484,6 +490,9 @@ func (a *Analysis) CheckC14(rep *Report) {
 			continue
 		}
 		rep.Ob("H0-algorithm-name-constant", name, svc.Name != "", pos, "Algorithm() does not return one constant name")
+		// branches the value ranges rule out (`if checksum > 0xFF { … }` after every step masked to eight bits – an
+		// asserted invariant): the paths through them do not exist
+		paths = pruneByIntervals(paths, fn, intervals(fn))
 		var data *Val
 		if len(fn.Params) >= 2 {
 			data = &Val{Op: "param", ID: 1, Name: fn.Params[1].Name(), Type: fn.Params[1].Type()}
@@ -1419,4 +1428,194 @@ func (a *Analysis) crc16Form(p *Path) (form string, problems []string) {
 		problems = append(problems, fmt.Sprintf("the polynomial xor-ed in is %#04x, not 0xA001", c))
 	}
 	return
+}
+
+// pruneByIntervals drops the paths that take a branch of fn whose condition – a comparison of two integer values –
+// the interval analysis decides the other way for every execution.
+func pruneByIntervals(paths []*Path, fn *ssa.Function, iv *intervalResult) []*Path {
+	type key struct {
+		at    ssa.Instruction
+		taken bool
+	}
+	dead := map[key]bool{}
+	get := func(v ssa.Value) (itv, bool) {
+		if c, ok := v.(*ssa.Const); ok {
+			if c.Value != nil && c.Value.Kind() == constant.Int {
+				f, _ := constant.Float64Val(constant.ToFloat(c.Value))
+				return point(f), true
+			}
+			return itv{}, false
+		}
+		x, ok := iv.vals[v]
+		if !ok || x.bottom {
+			return itv{}, false
+		}
+		return x, true
+	}
+	for _, b := range fn.Blocks {
+		iff, ok := b.Instrs[len(b.Instrs)-1].(*ssa.If)
+		if !ok {
+			continue
+		}
+		bo, ok := iff.Cond.(*ssa.BinOp)
+		if !ok {
+			continue
+		}
+		x, okX := get(bo.X)
+		y, okY := get(bo.Y)
+		if !okX || !okY {
+			continue
+		}
+		var always, never bool
+		switch bo.Op {
+		case token.GTR:
+			always, never = x.lo > y.hi, x.hi <= y.lo
+		case token.GEQ:
+			always, never = x.lo >= y.hi, x.hi < y.lo
+		case token.LSS:
+			always, never = x.hi < y.lo, x.lo >= y.hi
+		case token.LEQ:
+			always, never = x.hi <= y.lo, x.lo > y.hi
+		default:
+			continue
+		}
+		if always {
+			dead[key{iff, false}] = true
+		}
+		if never {
+			dead[key{iff, true}] = true
+		}
+	}
+	if os.Getenv("FPDEBUG") == "iv" {
+		fmt.Fprintln(os.Stderr, "pruneByIntervals", fn, "dead", len(dead))
+		for _, b := range fn.Blocks {
+			if iff, ok := b.Instrs[len(b.Instrs)-1].(*ssa.If); ok {
+				if bo, ok := iff.Cond.(*ssa.BinOp); ok {
+					x, okX := get(bo.X)
+					y, okY := get(bo.Y)
+					fmt.Fprintln(os.Stderr, "  if", bo, "pos", iff.Pos().IsValid(), x, okX, y, okY)
+				}
+			}
+		}
+		for _, p := range paths {
+			for _, c := range p.Conds {
+				fmt.Fprintln(os.Stderr, "  cond", c.String(), c.Pos.IsValid(), c.Fn == fn)
+			}
+		}
+	}
+	if len(dead) == 0 {
+		return paths
+	}
+	var out []*Path
+	for _, p := range paths {
+		drop := false
+		for _, c := range p.Conds {
+			if c.At != nil && dead[key{c.At, c.Taken}] {
+				drop = true
+			}
+		}
+		if !drop {
+			out = append(out, p)
+		}
+	}
+	if len(out) == 0 {
+		return paths
+	}
+	return out
+}
+
+// deadEdgesByIntervals: the (branch, outcome) pairs of fn that the interval analysis rules out for every execution.
+func deadEdgesByIntervals(fn *ssa.Function, iv *intervalResult) map[*ssa.If][2]bool {
+	out := map[*ssa.If][2]bool{} // [0]: the false edge is dead, [1]: the true edge is dead
+	get := func(v ssa.Value) (itv, bool) {
+		if c, ok := v.(*ssa.Const); ok {
+			if c.Value != nil && c.Value.Kind() == constant.Int {
+				f, _ := constant.Float64Val(constant.ToFloat(c.Value))
+				return point(f), true
+			}
+			return itv{}, false
+		}
+		x, ok := iv.vals[v]
+		if !ok || x.bottom {
+			return itv{}, false
+		}
+		return x, true
+	}
+	for _, b := range fn.Blocks {
+		if len(b.Instrs) == 0 {
+			continue
+		}
+		iff, ok := b.Instrs[len(b.Instrs)-1].(*ssa.If)
+		if !ok {
+			continue
+		}
+		bo, ok := iff.Cond.(*ssa.BinOp)
+		if !ok {
+			continue
+		}
+		x, okX := get(bo.X)
+		y, okY := get(bo.Y)
+		if !okX || !okY {
+			continue
+		}
+		var always, never bool
+		switch bo.Op {
+		case token.GTR:
+			always, never = x.lo > y.hi, x.hi <= y.lo
+		case token.GEQ:
+			always, never = x.lo >= y.hi, x.hi < y.lo
+		case token.LSS:
+			always, never = x.hi < y.lo, x.lo >= y.hi
+		case token.LEQ:
+			always, never = x.hi <= y.lo, x.lo > y.hi
+		default:
+			continue
+		}
+		if always || never {
+			out[iff] = [2]bool{always, never}
+		}
+	}
+	return out
+}
+
+// deadBlocksByIntervals: the blocks of fn reachable only over edges the interval analysis rules out.
+func deadBlocksByIntervals(fn *ssa.Function, iv *intervalResult) map[*ssa.BasicBlock]bool {
+	edges := deadEdgesByIntervals(fn, iv)
+	dead := map[*ssa.BasicBlock]bool{}
+	if len(edges) == 0 {
+		return dead
+	}
+	edgeDead := func(from, to *ssa.BasicBlock) bool {
+		if dead[from] {
+			return true
+		}
+		iff, ok := from.Instrs[len(from.Instrs)-1].(*ssa.If)
+		if !ok {
+			return false
+		}
+		d, has := edges[iff]
+		if !has || len(from.Succs) != 2 || from.Succs[0] == from.Succs[1] {
+			return false
+		}
+		return (to == from.Succs[0] && d[1]) || (to == from.Succs[1] && d[0])
+	}
+	for changed := true; changed; {
+		changed = false
+		for _, b := range fn.Blocks {
+			if dead[b] || len(b.Preds) == 0 {
+				continue
+			}
+			all := true
+			for _, p := range b.Preds {
+				if !edgeDead(p, b) {
+					all = false
+				}
+			}
+			if all {
+				dead[b] = true
+				changed = true
+			}
+		}
+	}
+	return dead
 }
